@@ -22,6 +22,30 @@ pub enum Event {
 thread_local! {
     static LOG: RefCell<Option<Vec<Event>>> = RefCell::new(None);
     static NEXT: Cell<u32> = Cell::new(1);
+    /// VERIF-TRACE fault injection: (index of the TranscriptRng output call to disturb, xor mask for its first byte)
+    static RNG_FAULT: Cell<Option<(usize, u8)>> = Cell::new(None);
+    static RNG_CALLS: Cell<usize> = Cell::new(0);
+}
+
+/// Disturb one output of the transcript RNG: the `call`-th `fill_bytes` (0-based, counted from this call on) gets `mask`
+/// xor-ed into its first byte before it is handed out. The sponge state is untouched: every other output is what it would
+/// have been. Used to find out, by intervention, which RNG draw plays which role in a proof. `None` switches it off.
+pub fn set_rng_fault(f: Option<(usize, u8)>) {
+    RNG_FAULT.with(|c| c.set(f));
+    RNG_CALLS.with(|c| c.set(0));
+}
+
+pub(crate) fn rng_fault(dest: &mut [u8]) {
+    let k = RNG_CALLS.with(|c| {
+        let v = c.get();
+        c.set(v + 1);
+        v
+    });
+    if let Some((call, mask)) = RNG_FAULT.with(|c| c.get()) {
+        if call == k && !dest.is_empty() {
+            dest[0] ^= mask;
+        }
+    }
 }
 
 pub(crate) fn fresh_id() -> u32 {
